@@ -96,14 +96,18 @@ def generate(rng, tier, shard, nshards):
     n = gens.budget(150, tier, nshards)
     for i in range(n):
         reg = ["rows:generic", "rows:special", "rows:one"][i % 3]
-        N = 1 if reg == "rows:one" else int(rng.integers(2, 9))
+        N = 1 if reg == "rows:one" else [2, 3, 4, 5, 8, 4, 3, 7][(i // 3) % 8]      # N = 3 and N = 4 (the vector / quaternion dimension itself) every run
         Q = rows_quats(rng, N, reg != "rows:generic")
         ang = np.c_[rng.uniform(-np.pi, np.pi, N), rng.uniform(-np.pi / 2 + 1e-3, np.pi / 2 - 1e-3, N), rng.uniform(-np.pi, np.pi, N)]
+        if i % 2:       # unwrapped angles (compass headings 0..360, rolls beyond +-180): anything in [-2 pi, 2 pi] is accepted by both entry points
+            k_ = rng.random((N, 3)) < 0.4
+            k_[:, 1] = False
+            ang = ang + np.where(k_, 2 * np.pi * np.sign(-ang), 0.0)
         a, m = random_am(rng, N)
         yield Case("rows", reg, Q=Q, angles=ang, V=rng.standard_normal((N, 3)) * gens.logu(rng, 1e-2, 1e3), a=a, m=m)
     for i in range(n):
         reg = ["metric:generic", "metric:close", "metric:exact"][i % 3]
-        N = int(rng.integers(1, 7))
+        N = [1, 2, 3, 4, 6, 4, 3, 5][(i // 3) % 8]
         Q1 = gens.unit(rng, N).reshape(N, 4)
         if reg == "metric:exact":      # exactly orthogonal (half a turn apart), identical and antipodal rows built from exact small-integer quaternions
             E = np.array([[1, 0, 0, 0], [0, 1, 0, 0], [0, 0, 1, 0], [0, 0, 0, 1], [1, 1, 0, 0], [1, -1, 0, 0], [1, 1, 1, 1], [1, -1, 1, -1], [1, 1, -1, -1], [0, 1, 1, 0], [0, 1, -1, 0]], float)
@@ -129,7 +133,7 @@ def generate(rng, tier, shard, nshards):
         yield Case("est", "est:integer", a=a, m=m, dip=float(rng.choice([0.0, 30.0, -45.0, 60.0, 66.0])), seed=int(rng.integers(2**31)))
     for i in range(n):
         reg = ["est:generic", "est:one", "est:scaled"][i % 3]
-        N = 1 if reg == "est:one" else int(rng.integers(2, 7))
+        N = 1 if reg == "est:one" else [2, 3, 4, 6, 3, 5][(i // 3) % 6]
         a, m = consistent_am(rng, N) if reg == "est:scaled" or i % 2 else random_am(rng, N)
         yield Case("est", reg, a=a, m=m, dip=float(rng.uniform(-75, 75)), seed=int(rng.integers(2**31)))
 
@@ -290,8 +294,9 @@ def check_est(case, ctx):
                                  lambda a, m, meth=meth: F.FLAE(magnetic_dip=dip).estimate(a, m, method=meth))
     for name, (batch, single) in specs.items():
         if case.region == "est:integer":
-            forms.invariant(ctx, name, lambda x, y: batch(x, y), [a, m])
-            forms.invariant(ctx, name, lambda x, y: single(x, y), [a[0], m[0]], clause="single-item call: the same values in another argument form give the same result")
+            att = name in BRANCH_CUT_ROUTES
+            forms.invariant(ctx, name, lambda x, y: batch(x, y), [a, m], attitude=att)
+            forms.invariant(ctx, name, lambda x, y: single(x, y), [a[0], m[0]], clause="single-item call: the same values in another argument form give the same result", attitude=att)
         if N > 1:
             cmp_rows(ctx, name, call(lambda: batch(a.copy(), m.copy())), [call(lambda i=i: single(a[i].copy(), m[i].copy())) for i in range(N)], TOL_EST,
                      sens=lambda i: sensitivity(single, a[i], m[i]))
